@@ -293,8 +293,8 @@ def _dev_sig(lib, ref):
     with np.errstate(all="ignore"):
         ratio = lib[bad] / ref[bad]
     ratio = ratio[np.isfinite(ratio)]
-    if ratio.size and np.ptp(ratio) <= 1e-6 * abs(ratio.mean()):
-        return f"{where}-nodes:factor={ratio.mean():.3g}"
+    if ratio.size > 1 and where == "all" and np.ptp(ratio) <= 1e-6 * abs(ratio.mean()):
+        return "all-nodes:constant-factor"
     return f"{where}-nodes:mismatch"
 
 
